@@ -2286,6 +2286,20 @@ func (rws *responseWriterState) Reset() {
 
 func (rws *responseWriterState) hasTrailers() bool { return len(rws.trailers) != 0 }
 
+// hasNonemptyTrailers reports whether a declared trailer has a value that
+// will actually be encoded (see encodeHeaders): an empty trailer block is
+// never written, so END_STREAM must then go on the last DATA frame.
+func (rws *responseWriterState) hasNonemptyTrailers() bool {
+	for _, k := range rws.trailers {
+		for _, v := range rws.handlerHeader[k] {
+			if validHeaderFieldName(lowerHeader(k)) && validHeaderFieldValue(v) {
+				return true
+			}
+		}
+	}
+	return false
+}
+
 // declareTrailer is called for each Trailer header when the
 // response header is written. It notes that a header will need to be
 // written in the trailers at the end of the response.
@@ -2374,7 +2388,8 @@ func (rws *responseWriterState) writeChunk(p []byte) (n int, err error) {
 		rws.promoteUndeclaredTrailers()
 	}
 
-	endStream := rws.handlerDone && !rws.hasTrailers()
+	hasNonemptyTrailers := rws.hasNonemptyTrailers()
+	endStream := rws.handlerDone && !hasNonemptyTrailers
 	if len(p) > 0 || endStream {
 		// only send a 0 byte DATA frame if we're ending the stream.
 		if err := rws.conn.writeDataFromHandler(rws.stream, p, endStream); err != nil {
@@ -2382,7 +2397,7 @@ func (rws *responseWriterState) writeChunk(p []byte) (n int, err error) {
 		}
 	}
 
-	if rws.handlerDone && rws.hasTrailers() {
+	if rws.handlerDone && hasNonemptyTrailers {
 		err = rws.conn.writeHeaders(rws.stream, &writeResHeaders{
 			streamID:  rws.stream.id,
 			h:         rws.handlerHeader,
